@@ -336,7 +336,34 @@ def r13_6(ctx):
            'every path clears _readable or closes, then raises')
 
 
+def r13_7(ctx):
+    ctx.rule('R13.7', 'the read-exactly / write-all loops assume a blocking descriptor: every socket that is turned into '
+                      'a Connection by the listener or the client is put into blocking mode first (a default socket '
+                      'timeout set by the application makes new sockets non-blocking)', floor=2)
+    m = ctx.model
+    n_s = 0
+    for qn in ('connection:SocketListener.accept', 'connection:SocketClient'):
+        fi = m.func(qn)
+        cfg = fi.cfg
+        for (n, c) in q.calls(fi, 'Connection'):
+            a = c.args[0] if c.args else None
+            if not (isinstance(a, ast.Call) and fi.callee(a) in ('detach',) and a.args and isinstance(a.args[0], ast.Name)):
+                continue
+            s = a.args[0].id
+            n_s += 1
+            setb = [x for (x, cc) in q.calls(fi, s + '.setblocking')
+                    if cc.args and isinstance(cc.args[0], ast.Constant) and cc.args[0].value in (True, 1)]
+            ok = bool(setb) and cfg.dominated_by(n, setb, completed=True)[0]
+            ctx.ob('R13.7', '%s:socket-made-blocking-before-it-becomes-a-connection' % qn.split(':')[1], ok, fi, c,
+                   '%s.setblocking(True) precedes Connection(detach(%s))' % (s, s) if ok else
+                   'the socket is handed to Connection without setblocking(True): after socket.setdefaulttimeout() it '
+                   'is non-blocking, a message that arrives in pieces raises BlockingIOError mid-frame and the stream '
+                   'is out of step from then on')
+    q.need(n_s >= 2, 'connection.py: socket-to-Connection sites of listener and client not found')
+
+
 def run(ctx):
+    r13_7(ctx)
     r13_1(ctx)
     r13_2(ctx)
     r13_3(ctx)
